@@ -506,6 +506,30 @@ fn range_calls<C: DateRoll>(ctx: &mut Ctx, cal: &C, spec: &CalSpec, z0: i64, z1:
 }
 
 fn spline_calls(ctx: &mut Ctx, r: &mut Rng) {
+    // the smallest splines the constructor admits: as many knots as the order (no coefficient at all), or one more
+    if r.chance(0.08) {
+        let k = 1 + r.usize(4);
+        let extra = r.usize(2);
+        // (the constructor asserts at least two knots - a documented precondition, not a fallible entry point)
+        let k = if k + extra < 2 { 2 } else { k };
+        let mut t: Vec<f64> = (0..k + extra).map(|_| r.uniform(-5.0, 5.0)).collect();
+        t.sort_by(|a, b| a.partial_cmp(b).unwrap());
+        let mut sp = PPSpline::<f64>::new(k, t.clone(), None);
+        let ny = r.usize(3);
+        let tau: Vec<f64> = (0..ny).map(|_| r.uniform(-5.0, 5.0)).collect();
+        let y: Vec<f64> = (0..ny).map(|_| r.real()).collect();
+        let lsq = r.bool();
+        let input = || json!({"k": k, "t": t, "tau": tau, "y_len": ny, "allow_lsq": lsq, "coefficients": extra});
+        ctx.crumb(&format!("degenerate spline {}", input()));
+        ctx.class(if extra == 0 { "csolve:spline-without-coefficients" } else { "csolve:spline-with-one-coefficient" });
+        if no_panic(ctx, "PPSpline::csolve(degenerate)", guarded(|| sp.csolve(&tau, &y, 0, 0, lsq).is_ok()), input).is_some() {
+            if let Some(s) = spline_shape(&sp) {
+                ctx.violation("C20|invariant|PPSpline::csolve", json!({"input": input(), "what": s}));
+            }
+            let _ = no_panic(ctx, "ppdnev_single(degenerate)", guarded(|| sp.ppdnev_single(&t[0], 0).is_ok()), input);
+        }
+        return;
+    }
     let k = 1 + r.usize(6);
     let (t, _) = super::c14::gen_knots(r, k, 5);
     let n = t.len() - k;
@@ -1241,6 +1265,8 @@ impl Prop for C20 {
             v.push(format!("csolve:{}:err", s));
         }
         v.push("csolve:spread:ok".into());
+        v.push("csolve:spline-without-coefficients".into());
+        v.push("csolve:spline-with-one-coefficient".into());
         v.push("index_value:err-without-base".into());
         for c in ["mapped_value:f64:ok", "mapped_value:Dual:ok", "mapped_value:Dual2:ok", "mapped_value:f64:err", "typed-evaluator:order-mismatch", "bus_date_range:ok", "bus_date_range:err", "curve:order-switch-sequence"] {
             v.push(c.to_string());
